@@ -3,9 +3,7 @@
 import json, os
 V = os.path.dirname(os.path.dirname(os.path.abspath(__file__)))
 props = [json.loads(l) for l in open(os.path.join(V, "properties.jsonl"))]
-CLAIMED = sorted(p[:-3].upper() for p in os.listdir(os.path.join(V, "lib", "props")) if p.startswith("c") and p.endswith(".py")
-                 and "THEOREMS = [" in open(os.path.join(V, "lib", "props", p)).read()
-                 and "THEOREMS = []" not in open(os.path.join(V, "lib", "props", p)).read())
+CLAIMED = sorted(open(os.path.join(V, "tools", "claimed.txt")).read().split())
 NOTES = {}
 hooks = ["00a46ea"]
 checks = []
